@@ -1,18 +1,6 @@
-import PieModel.Props.C05
 import PieModel.Props.C05Inv
-#print axioms PieModel.C05_read_hidden_abort
-#print axioms PieModel.C05_read_hidden_iff
-#print axioms PieModel.C05_read_abort_kinds
-#print axioms PieModel.C05_read_own_write_aborts
-#print axioms PieModel.C05_read_visible_ok
-#print axioms PieModel.C05_write_hidden_abort
-#print axioms PieModel.C05_wrote_hidden_abort
-#print axioms PieModel.C05_write_abort_iff
-#print axioms PieModel.C05_wrote_abort_iff
-#print axioms PieModel.C05_self_read_write_aborts
-#print axioms PieModel.C05_write_abort_kinds
-#print axioms PieModel.C05_C06_abort_before_modification_corrected
-#print axioms PieModel.C05_C06_abort_before_modification_live
+
+-- PieModel/Props/C05Inv.lean
 #print axioms PieModel.C05_no_hidden_at_creation_read
 #print axioms PieModel.C05_no_hidden_at_creation_write
 #print axioms PieModel.C05_no_hidden_at_creation_wrote
